@@ -40,6 +40,10 @@ func init() {
 		"vfTerminates": vfTerminates,
 		"vfTypeCheck":  vfTypeCheck,
 		"vfTypeErrors": vfTypeErrors,
+		"vfExec":       vfExec,
+		"vfAssertTerminates": func(p *path, caller *frame, a []value) value {
+			return vfAssert(p, caller, []value{vfTerminates(p, caller, a[:1]), a[1]})
+		},
 		"vfFileExists": vfFileExists,
 		"vfLoadResult": vfLoadResult,
 		"vfLoadDir":    vfLoadDir,
